@@ -51,6 +51,9 @@ def cases(draw, strategy, concurrent):
     recv = []
     for _ in range(draw(st.integers(2, 10))):
       recv.append(store() if draw(st.integers(0, 6)) else wait())
+    for _ in range(draw(st.sampled_from([0, 0, 1, 2]))):
+      # graphite-web asks for a series (possibly one that is not cached): a read, the drains are unaffected by it
+      recv.insert(draw(st.integers(0, len(recv))), ['query', draw(st.sampled_from(c02.METRICS[:nm + 1]))])
     if draw(st.integers(0, 4)) == 0:
       # another component of the same daemon (a send queue, with RELAY_CACHE_METRICS) announces "full"
       recv.insert(draw(st.integers(0, len(recv))), ['full_elsewhere'])
@@ -64,6 +67,8 @@ def cases(draw, strategy, concurrent):
     for _ in range(draw(st.integers(3, 50))):
       k = draw(st.integers(0, 9))
       ops.append(['drain'] if k < 3 else (wait() if k == 3 and lag else store()))
+    for _ in range(draw(st.sampled_from([0, 0, 1, 2]))):
+      ops.insert(draw(st.integers(0, len(ops))), ['query', draw(st.sampled_from(c02.METRICS[:nm + 1]))])
     if draw(st.integers(0, 4)) == 0:
       ops.insert(draw(st.integers(0, len(ops))), ['full_elsewhere'])
     programs = [ops, []]
